@@ -995,6 +995,8 @@ func pluginExtra(t *tr) string {
 			return true
 		})
 		fmt.Fprintf(&b, "/-- regenerated from `parseConf`: the conditions it tests (outside the fillConf closure), what it deletes from the data -/\ndef parseConfConds : List String := [%s]\ndef parseConfDeletes : List String := [%s]\n\n", pluginQuoteList(conds), pluginQuoteList(deletes))
+		b.WriteString(pluginParseConfFlow(hk, fd))
+		b.WriteString(pluginKeyMapCopies(t, hk))
 	} else {
 		t.errs = append(t.errs, "pluginconfig.parseConf not found")
 	}
@@ -1071,6 +1073,159 @@ func pluginExtra(t *tr) string {
 	sort.Strings(rows)
 	fmt.Fprintf(&b, "/-- regenerated from core/register: (helper, type of its pointer variable, the call it makes) -/\ndef registerHelpers : List (String × String × String) :=\n  [%s]\n", strings.Join(rows, ",\n   "))
 	return b.String()
+}
+
+// pluginParseConfFlow reads off parseConf how a caller can get a nil error: every `return` (outside the fillConf closure)
+// and every assignment to the func-typed result, in source order.  A return is printed with the innermost enclosing
+// condition, and with the statement right before it in its block (assigned variable, called function); an assignment to
+// the func-typed result with its innermost enclosing condition and whether a closure is assigned.
+func pluginParseConfFlow(p *packages.Package, fd *ast.FuncDecl) string {
+	var fillObj types.Object
+	if fd.Type.Results != nil {
+		for _, f := range fd.Type.Results.List {
+			if _, isFunc := p.TypesInfo.TypeOf(f.Type).Underlying().(*types.Signature); isFunc {
+				for _, n := range f.Names {
+					fillObj = p.TypesInfo.Defs[n]
+				}
+			}
+		}
+	}
+	var rows []string
+	row := func(kind, ctx, lhs, callee, res string) {
+		rows = append(rows, fmt.Sprintf("(%q, %q, %q, %q, %q)", kind, ctx, lhs, callee, res))
+	}
+	var walkBlock func(list []ast.Stmt, ctx string)
+	var walkStmt func(s ast.Stmt, prev ast.Stmt, ctx string)
+	walkBlock = func(list []ast.Stmt, ctx string) {
+		var prev ast.Stmt
+		for _, s := range list {
+			walkStmt(s, prev, ctx)
+			prev = s
+		}
+	}
+	walkStmt = func(s ast.Stmt, prev ast.Stmt, ctx string) {
+		switch v := s.(type) {
+		case *ast.ReturnStmt:
+			lhs, callee := "", ""
+			if as, ok := prev.(*ast.AssignStmt); ok && len(as.Lhs) == 1 && len(as.Rhs) == 1 {
+				lhs = pluginCanon(p, fd, as.Lhs[0])
+				if call, ok := as.Rhs[0].(*ast.CallExpr); ok {
+					callee = pluginCanon(p, fd, call.Fun)
+				}
+			}
+			var res []string
+			for _, r := range v.Results {
+				res = append(res, pluginCanon(p, fd, r))
+			}
+			row("ret", ctx, lhs, callee, strings.Join(res, ", "))
+		case *ast.AssignStmt:
+			for i, l := range v.Lhs {
+				if id, ok := l.(*ast.Ident); ok && fillObj != nil && p.TypesInfo.ObjectOf(id) == fillObj {
+					kind := "other"
+					if len(v.Rhs) == len(v.Lhs) {
+						if _, isLit := v.Rhs[i].(*ast.FuncLit); isLit {
+							kind = "func"
+						} else {
+							kind = pluginCanon(p, fd, v.Rhs[i])
+						}
+					}
+					row("fill", ctx, "", kind, "")
+				}
+			}
+		case *ast.IfStmt:
+			cond := pluginCanon(p, fd, v.Cond)
+			walkBlock(v.Body.List, cond)
+			if v.Else != nil {
+				walkStmt(v.Else, nil, "!("+cond+")")
+			}
+		case *ast.BlockStmt:
+			walkBlock(v.List, ctx)
+		case *ast.RangeStmt:
+			walkBlock(v.Body.List, "range")
+		case *ast.ForStmt:
+			walkBlock(v.Body.List, "for")
+		case *ast.SwitchStmt:
+			for _, c := range v.Body.List {
+				walkBlock(c.(*ast.CaseClause).Body, "switch")
+			}
+		case *ast.TypeSwitchStmt:
+			for _, c := range v.Body.List {
+				walkBlock(c.(*ast.CaseClause).Body, "switch")
+			}
+		case *ast.LabeledStmt:
+			walkStmt(v.Stmt, prev, ctx)
+		}
+	}
+	walkBlock(fd.Body.List, "")
+	// what the fillConf closure does to the configuration: the functions of the config package it calls
+	var decoders []string
+	ast.Inspect(fd.Body, func(n ast.Node) bool {
+		lit, ok := n.(*ast.FuncLit)
+		if !ok {
+			return true
+		}
+		ast.Inspect(lit.Body, func(m ast.Node) bool {
+			if call, ok := m.(*ast.CallExpr); ok {
+				if sel, ok := call.Fun.(*ast.SelectorExpr); ok {
+					if id, ok := sel.X.(*ast.Ident); ok {
+						if pn, ok := p.TypesInfo.ObjectOf(id).(*types.PkgName); ok && pn.Imported().Path() == "github.com/yandex/pandora/core/config" {
+							decoders = append(decoders, "config."+sel.Sel.Name)
+						}
+					}
+				}
+			}
+			return true
+		})
+		return false
+	})
+	flow := fmt.Sprintf("/-- regenerated from `parseConf`: the functions of core/config the fillConf closure calls on the configuration -/\ndef parseConfDecoder : List String := [%s]\n", pluginQuoteList(decoders))
+	return flow + fmt.Sprintf("/-- regenerated from `parseConf`: how it can return — every `return` outside the fillConf closure and every assignment to\nthe func-typed result (the fillConf it hands to plugin.New / NewFactory), in source order:\n(\"ret\", innermost enclosing condition, variable assigned right before, function called there, explicit results) /\n(\"fill\", innermost enclosing condition, \"\", \"func\" for a closure, \"\") -/\ndef parseConfFlow : List (String × String × String × String × String) :=\n  [%s]\n\n", strings.Join(rows, ",\n   "))
+}
+
+// pluginKeyMapCopies reads off toStringKeyMap that the map parseConf deletes the `type` key from is a COPY of the
+// decoder's data: what the map-typed result is assigned from (the called function), and which maps are written to.
+func pluginKeyMapCopies(t *tr, p *packages.Package) string {
+	fd := pluginFindDecl(p, "toStringKeyMap")
+	if fd == nil {
+		t.errs = append(t.errs, "pluginconfig.toStringKeyMap not found")
+		return ""
+	}
+	var outObj types.Object
+	if fd.Type.Results != nil {
+		for _, f := range fd.Type.Results.List {
+			if _, isMap := p.TypesInfo.TypeOf(f.Type).Underlying().(*types.Map); isMap {
+				for _, n := range f.Names {
+					outObj = p.TypesInfo.Defs[n]
+				}
+			}
+		}
+	}
+	var from, writes []string
+	ast.Inspect(fd.Body, func(n ast.Node) bool {
+		switch v := n.(type) {
+		case *ast.AssignStmt:
+			for i, l := range v.Lhs {
+				switch lv := l.(type) {
+				case *ast.Ident:
+					if outObj != nil && p.TypesInfo.ObjectOf(lv) == outObj && len(v.Rhs) == len(v.Lhs) {
+						if call, ok := v.Rhs[i].(*ast.CallExpr); ok {
+							from = append(from, pluginCanon(p, fd, call.Fun))
+						} else {
+							from = append(from, pluginCanon(p, fd, v.Rhs[i]))
+						}
+					}
+				case *ast.IndexExpr:
+					writes = append(writes, pluginCanon(p, fd, lv.X))
+				}
+			}
+		case *ast.CallExpr:
+			if id, ok := v.Fun.(*ast.Ident); ok && id.Name == "delete" && len(v.Args) > 0 {
+				writes = append(writes, "delete "+pluginCanon(p, fd, v.Args[0]))
+			}
+		}
+		return true
+	})
+	return fmt.Sprintf("/-- regenerated from `toStringKeyMap`: what its map result is assigned from (called function), which maps it writes to -/\ndef keyMapFrom : List String := [%s]\ndef keyMapWrites : List String := [%s]\n\n", pluginQuoteList(from), pluginQuoteList(writes))
 }
 
 func pluginQuoteList(xs []string) string {
